@@ -68,7 +68,11 @@ def _forms(draw):
     for i in range(dim):
         for j in range(i, dim):
             other[i][j] = other[j][i] = draw(st.integers(-5, 5))
-    out.update({"A": draw(gens.complex_matrix(dim)), "rho": draw(gens.density_matrix_spec(dim)), "other": other})
+    out.update({"A": draw(gens.complex_matrix(dim)), "rho": draw(gens.density_matrix_spec(dim)), "other": other,
+                # additional pure dephasing in the propagators (time-independent tensors), one initial-state object
+                # handed to both propagations, apply(copy=False) on an operator given as a real array
+                "pd": draw(st.sampled_from([None, None, "Lorentzian", "Gaussian"])),
+                "share_rho": draw(st.booleans()), "apply_real_inplace": draw(st.booleans())})
     return out
 
 
@@ -167,6 +171,18 @@ def _check_forms(case, ctx):
                     ctx.close("forms-act-identically", a, b, rtol=1e-9, scale=max(1e-12, float(numpy.max(numpy.abs(b)))),
                               where=tag + "/" + label, basis=bname)
         compare("before-conversion", ho, ht)
+        if case.get("apply_real_inplace"):
+            Ar = numpy.array(A.real, dtype=float)
+
+            def inplace(T):
+                o = Operator(data=Ar.copy())
+                T.apply(o, copy=False)
+                return numpy.array(o.data)
+            ok1, a = guarded(ctx, "apply", lambda: inplace(To), tag + "/op/copy=False")
+            ok2, b = guarded(ctx, "apply", lambda: inplace(Tt), tag + "/tensor/copy=False")
+            if ok1 and ok2:
+                ctx.close("forms-act-identically", a, b, rtol=1e-9, scale=max(1e-12, float(numpy.max(numpy.abs(b)))),
+                          where=tag + "/copy=False-on-real-operator")
 
     # ---- (2) propagation with both forms ----------------------------------------------------------------
     rho0 = gens.density_matrix(case["rho"])
@@ -176,15 +192,28 @@ def _check_forms(case, ctx):
     else:
         tp = qr.TimeAxis(ta.start, (ta.length - 1) // m + 1, ta.step * m)
 
+    pd = case.get("pd") if not case["td"] else None
+    shared_rho = ReducedDensityMatrix(data=rho0.copy()) if case.get("share_rho") else None
+
     def prop(T, ham):
-        p = ReducedDensityMatrixPropagator(tp, ham, T)
-        return numpy.array(p.propagate(ReducedDensityMatrix(data=rho0.copy()), Nref=nref).data)
+        if pd:
+            from quantarhei.qm import PureDephasing
+            g = 0.01 * (numpy.ones((dim, dim)) - numpy.eye(dim))
+            p = ReducedDensityMatrixPropagator(tp, ham, T, PDeph=PureDephasing(drates=g if pd == "Lorentzian" else g / 20.0,
+                                                                             dtype=pd))
+        else:
+            p = ReducedDensityMatrixPropagator(tp, ham, T)
+        rin = shared_rho if shared_rho is not None else ReducedDensityMatrix(data=rho0.copy())
+        return numpy.array(p.propagate(rin, Nref=nref).data)
     ok1, d1 = guarded(ctx, "propagate", lambda: prop(To, ho), tag + "/op")
     ok2, d2 = guarded(ctx, "propagate", lambda: prop(Tt, ht), tag + "/tensor")
     tensor_dynamics_ok = ok2
     if ok1 and ok2:
         ctx.close("forms-propagate-identically", d1, d2, rtol=1e-9, scale=max(1.0, float(numpy.max(numpy.abs(d2)))),
-                  where=tag, m=m, nref=nref)
+                  where=tag + ("/pure-dephasing" if pd else "") + ("/shared-initial-state" if shared_rho is not None else ""),
+                  m=m, nref=nref)
+        if shared_rho is not None:
+            ctx.close("initial-state-unchanged", numpy.array(shared_rho.data), rho0, rtol=1e-12, scale=1.0, where=tag)
 
     # ---- (1b) after conversion of the operator form ---------------------------------------------------------
     if not case["td"]:
